@@ -19,8 +19,10 @@ N(e) == Len(e.hub)
 SeqResult(e) == [p \in 1..N(e) |-> IF e.local[p] # 0 THEN e.local[p] ELSE e.hub[p]]
 Confs(e) == {<<e.conf2[i][1], e.conf2[i][2]>> : i \in 1..Len(e.conf2)}
 
+\* e.unsendable: the local tree holds a file whose name is not UTF-8; wire paths are text, so the client must refuse
+\* (non-zero exit, hub untouched) rather than land the file under some other name
 FailedSeq(e) ==
-     (IF e.exit = 0 THEN {} ELSE {"sequential-run-failed"})
+     (IF e.exit = 0 \/ e.unsendable THEN {} ELSE {"sequential-run-failed"})
   \cup (IF e.exit = 0 /\ ~(\A p \in 1..N(e) : e.local[p] # 0 => e.hub2[p] = e.local[p]) THEN {"local-file-not-on-hub"} ELSE {})
   \cup (IF ~(\A p \in 1..N(e) : e.local[p] = 0 => e.hub2[p] = e.hub[p]) \/ e.alien # <<>> \/ Len(e.conf2) # Len(e.conf) THEN {"other-hub-path-touched"} ELSE {})
   \cup (IF e.exit = 0 /\ ~(e.second.exit = 0 /\ e.second.sent = 0 /\ e.second.conflicts = 0 /\ e.second.unchanged) THEN {"second-run-sends"} ELSE {})
@@ -37,7 +39,7 @@ FailedLarge(e) ==
   \cup (IF e.second.exit = 0 /\ e.second.sent = 0 /\ e.second.conflicts = 0 /\ e.second.unchanged THEN {} ELSE {"large-tree-second-run-fails"})
 
 Failed(e) == IF e.kind = "seq" THEN FailedSeq(e) ELSE IF e.kind = "large" THEN FailedLarge(e) ELSE FailedRace(e)
-Conform(e) == e.kind # "seq" \/ (e.hub2 = SeqResult(e) /\ e.sent = Cardinality({p \in 1..N(e) : e.local[p] # 0 /\ e.local[p] # e.hub[p]})
+Conform(e) == e.kind # "seq" \/ (e.unsendable /\ e.exit # 0 /\ e.hub2 = e.hub /\ e.alien = <<>>) \/ (~e.unsendable /\ e.hub2 = SeqResult(e) /\ e.sent = Cardinality({p \in 1..N(e) : e.local[p] # 0 /\ e.local[p] # e.hub[p]})
                                                   /\ e.skipped = Cardinality({p \in 1..N(e) : e.local[p] # 0 /\ e.local[p] = e.hub[p]}))
 
 Init == l = 1 /\ bad = {} /\ nonconf = {}
